@@ -163,6 +163,13 @@ def finish(prop, tier, seed, level, records, stats, summary, t0, assumptions=Non
                     e["example"] = {"case": rec.get("case_brief") or rec.get("case"), "detail": v.get("detail")}
             else:
                 new_viol.append((rec, v))
+    for v in summary.get("panel_viol") or []:
+        if v["key"].startswith(prop + "/"):
+            n_viol_total += 1
+            prec = {"case": {"panel": True}, "viol_count": {}}
+            k = match_known(prop, v, prec, known)
+            if k is None:
+                new_viol.append((prec, v))
     oracle_errors = [r for r in records if r.get("oracle_error") or r.get("worker_exception")]
     timeouts = [r for r in records if r.get("timeout")]
     cov = {
